@@ -1,4 +1,4 @@
-use rusty_bit_vec::{MIN_INTEGER, MIN_LONG};
+use rusty_bit_vec::{MAX_INTEGER, MIN_INTEGER, MIN_LONG};
 use rusty_common::*;
 
 use crate::{
@@ -124,7 +124,7 @@ impl Expression {
             Self::LongLiteral(n) => {
                 if n <= MIN_LONG {
                     Self::DoubleLiteral(-n as f64)
-                } else if -n >= MIN_INTEGER as i64 {
+                } else if -n >= MIN_INTEGER as i64 && -n <= MAX_INTEGER as i64 {
                     // -32768 fits in an integer, even though 32768 does not
                     Self::IntegerLiteral(-n as i32)
                 } else {
